@@ -15,6 +15,18 @@ func init() {
 	mut("C08", "no-skip-after-error", ex, "\tif e.err.Load() != nil {\n\t\treturn\n\t}\n\n\t// Execute the task", "\t// Execute the task", "tasks keep running after an error")
 	mut("C08", "writer-keeps-old-node", ex, "\t\t\t\t\tdependencies.Add(rt.id)\n\t\t\t\t}\n\t\t\t\te.nodes[k] = t", "\t\t\t\t\tdependencies.Add(rt.id)\n\t\t\t\t}", "exclusive task does not become the key's node")
 
+	// reverse-fix mutants: re-introduce the defects repaired by the fix: commits
+	mut("C04", "revert-fix-remove-after-allocate", "state/tstate/tstate_view.go", "\tdelete(ts.allocates, k)\n\t// Mark as an explicit delete.", "\tif _, ok := ts.allocates[k]; ok {\n\t\tdelete(ts.allocates, k)\n\t\tdelete(ts.writes, k)\n\t\tdelete(ts.pendingChangedKeys, k)\n\t\treturn nil\n\t}\n\t// Mark as an explicit delete.", "delete-after-allocate drops the pending entry without isUnchanged")
+	mut("C24", "revert-fix-without-permissions", "state/keys.go", "ks := make([]string, 0, len(k))", "ks := make([]string, len(k))", "prefetch list padded with empty keys")
+	mut("C26", "revert-fix-worker-exit", "internal/workers/parallel_workers.go", "\t\t\t\t\tw.sg.Done()\n\t\t\t\t\tcontinue", "\t\t\t\t\tw.sg.Done()\n\t\t\t\t\treturn", "worker leaves without acknowledgement after a failed job")
+	mut("C13", "revert-fix-price-product", "internal/fees/manager.go", "\t\tdelta := total - target\n\t\tbaseDelta := mulDivDiv(previousPrice, delta, target, changeDenom)", "\t\tdelta := total - target\n\t\tbaseDelta := previousPrice * delta / target / changeDenom", "unchecked price*delta")
+	mut("C13", "revert-fix-idle-scaling", "internal/fees/manager.go", "\t\t\tscaled, over := math.Mul(baseDelta, since/window.WindowSize)\n\t\t\tif over != nil {\n\t\t\t\tscaled = consts.MaxUint64\n\t\t\t}\n\t\t\tbaseDelta = scaled", "\t\t\tbaseDelta *= since / window.WindowSize", "unchecked idle-time scaling")
+	mut("C13", "direction-flipped", "internal/fees/manager.go", "\tif total > target {\n\t\t// If the parent block used more", "\tif total >= target {\n\t\t// If the parent block used more", "price rises at exactly target usage")
+	mut("C13", "min-clamp-only-on-decrease", "internal/fees/manager.go", "\t\t\tnextPrice = n\n\t\t}\n\t}\n\tif nextPrice < minPrice {\n\t\tnextPrice = minPrice\n\t}", "\t\t\tnextPrice = n\n\t\t}\n\t\tif nextPrice < minPrice {\n\t\t\tnextPrice = minPrice\n\t\t}\n\t}", "minimum clamp not applied on every path")
+	mut("C13", "consumed-offset-shifted", "internal/fees/manager.go", "func (f *Manager) setLastConsumed(d fees.Dimension, consumed uint64) {\n\tstart := consts.Int64Len + dimensionStateLen*d + consts.Uint64Len + window.WindowSliceSize", "func (f *Manager) setLastConsumed(d fees.Dimension, consumed uint64) {\n\tstart := consts.Int64Len + dimensionStateLen*d + consts.Uint64Len", "consumption written into the window")
+	mut("C33", "revert-fix-compaction", "fees/set.go", "\tfor i := 0; i < len(outIndices); i++ {\n\t\tif outIndices[i] == uint64(len(dimensions)) {\n\t\t\tcontinue\n\t\t}\n\t\toutIndices[j] = outIndices[i]\n\t\tj++\n\t}\n\toutIndices = outIndices[:j]", "\tfor i := 0; i < len(outIndices)-j; i++ {\n\t\tif outIndices[i] == uint64(len(dimensions)) {\n\t\t\tj++\n\t\t\ti--\n\t\t\tcontinue\n\t\t}\n\t\toutIndices[i] = outIndices[i+j]\n\t}\n\toutIndices = outIndices[:len(outIndices)-j]", "compaction re-tests the sentinel slot")
+	mut("C33", "mark-when-fits", "fees/set.go", "if !accumulator.CanAdd(dim, limit) {", "if accumulator.CanAdd(dim, limit) {", "selection inverted")
+
 	vw := "internal/validitywindow/validitywindow.go"
 	mut("C10", "expiry-boundary", vw, "case containerTimestamp < executionTimestamp:", "case containerTimestamp <= executionTimestamp:", "expiry equal to block time rejected")
 	mut("C10", "future-boundary", vw, "case containerTimestamp > executionTimestamp+validityWindow:", "case containerTimestamp >= executionTimestamp+validityWindow:", "upper boundary off by one")
